@@ -11,11 +11,11 @@ CHECKS = {
    text="Every committed state of every recorded execution of the real director (generated projects, edit histories, random schedules, conflict-heavy plans) is checked by TLC against the TLA+ well-formedness invariant and the file/step transition relations; internal (non-usage) errors on any request are violations.",
    note=TRACE_NOTE),
  "C10": dict(engine="buildlayer", category="model_checking", design_ref="§8 C10",
-   technique="TLA+ trace validation (TLC): Eligible/SafeDef/ReadyDef/ImpliedNeedDef definitions vs cached columns at every dispatch decision and phase end + SchedCache.tla (operational model of the incremental maintenance of _safe/_safe_ignoring_hold/_implied_need/_tail_time: exhaustive model check, finds F1 and F2 in their pre-fix variants; action sequences replayed into the real Workflow + Scheduler, Layer G) + Defer.tla (operational model of amended inputs, deferral, wake-up and the defer cap: model checked incl. liveness under fairness, replayed into the real Workflow, Layer G)",
+   technique="TLA+ trace validation (TLC): Eligible/SafeDef/ReadyDef/ImpliedNeedDef definitions vs cached columns at every dispatch decision and phase end + SchedCache.tla (operational model of the incremental maintenance of _safe/_safe_ignoring_hold/_implied_need/_tail_time/_ready: exhaustive model check, finds F1 and F2 in their pre-fix variants; action sequences replayed into the real Workflow + Scheduler, Layer G) + Defer.tla (operational model of amended inputs, deferral, wake-up and the defer cap: model checked incl. liveness under fairness, replayed into the real Workflow, Layer G)",
    text="At every dispatch decision of recorded executions TLC re-derives eligibility and all cached scheduling attributes from their TLA+ definitions and compares them with what the code used; at every phase end no eligible step may remain; defer cap and termination (no hang) are monitored.",
    note=TRACE_NOTE),
  "C12": dict(engine="buildlayer", category="model_checking", design_ref="§8 C12",
-   technique="TLA+ trace validation (TLC) of command start/end events against job, resource and hold limits + SchedCache.tla (operational model of the incremental maintenance of _safe/_safe_ignoring_hold/_implied_need/_tail_time: exhaustive model check, finds F1 and F2 in their pre-fix variants; action sequences replayed into the real Workflow + Scheduler, Layer G)",
+   technique="TLA+ trace validation (TLC) of command start/end events against job, resource and hold limits + SchedCache.tla (operational model of the incremental maintenance of _safe/_safe_ignoring_hold/_implied_need/_tail_time/_ready: exhaustive model check, finds F1 and F2 in their pre-fix variants; action sequences replayed into the real Workflow + Scheduler, Layer G)",
    text="For every command start of recorded executions under random schedules, job counts, resources and nested holds, TLC checks the job limit, the per-resource budget, undefined resources and that no step declared inside a hold block starts before the outermost release.",
    note=TRACE_NOTE),
  "C15": dict(engine="buildlayer", category="model_checking", design_ref="§8 C15",
@@ -74,7 +74,7 @@ CHECKS.update({
    text="After every successful unrestricted phase of generated histories (plan edits that drop, rename, move, re-role steps and outputs, optional steps), TLC checks the NoOrphans monitor on the committed graph and the tree snapshot.",
    note=TRACE_NOTE),
  "C11": dict(engine="buildlayer", category="model_checking", design_ref="§8 C11",
-   technique="TLA+ trace validation (TLC): NeededStep (ImpliedNeedDef by definition, with file and directory targets) at every command start, phase end and finalize end + SchedCache.tla (operational model of the incremental maintenance of _safe/_safe_ignoring_hold/_implied_need/_tail_time: exhaustive model check, finds F1 and F2 in their pre-fix variants; action sequences replayed into the real Workflow + Scheduler, Layer G)",
+   technique="TLA+ trace validation (TLC): NeededStep (ImpliedNeedDef by definition, with file and directory targets) at every command start, phase end and finalize end + SchedCache.tla (operational model of the incremental maintenance of _safe/_safe_ignoring_hold/_implied_need/_tail_time/_ready: exhaustive model check, finds F1 and F2 in their pre-fix variants; action sequences replayed into the real Workflow + Scheduler, Layer G)",
    text="With optional-heavy generated graphs and random file/directory target sets (fresh and resumed with other targets), TLC checks that every executed command belongs to a needed step, that a successful phase leaves every needed step built, and that unneeded optional steps are reverted with their outputs removed.",
    note=TRACE_NOTE),
 })
